@@ -184,6 +184,8 @@ class Conn(object):
             # the client's view: the frame was written (it cannot know the network already dropped the connection)
             self.frames_written.append((w.step_no, w.now, frame))
             w.write_log.append((w.step_no, w.now, self, frame))
+            if w.on_write is not None:
+                w.on_write(self, frame)
             if not self.dropped:
                 self.frames_in.append(frame)
                 w.push(Event("srv", conn=self))
@@ -253,6 +255,7 @@ class World(object):
         self.forbid_writes = False
         self.forbidden = []
         self.exceptions = []  # exceptions escaping protocol callbacks (diagnostics)
+        self.on_write = None  # observer(conn, frame), called synchronously at write time (record only!)
 
     # ------------------------------------------------------------------
     def endpoint_factory(self, reactor, host, port):
